@@ -167,4 +167,14 @@ def region_walk(
                 callees, kind = resolve_callees(px, f, call)
                 for c in callees:
                     work.append((c, chain + (c.short,)))
+                # bound methods handed over as callbacks (pattern.sub(self._filter, ...), map(self.m, ...)) are calls too
+                for a in list(call.args) + [k.value for k in call.keywords]:
+                    if isinstance(a, ast.Attribute) and isinstance(a.value, ast.Name) and a.value.id in ("self", "cls"):
+                        top = f
+                        while top.outer is not None:
+                            top = top.outer
+                        if top.cls is not None:
+                            m = top.cls.mro_lookup(a.attr)
+                            if m is not None:
+                                work.append((m, chain + (m.short,)))
     return
